@@ -300,4 +300,190 @@ theorem check_sound (inp : Input K) (hok : (check inp).fails = []) (q : P K) (hg
           · rw [← xAt_lerp _ y0 y1 q.y hne]
             exact (hright (x, r) hr.1 hr.2).le
 
+
+/-! ### what `Generic` means in terms of the input -/
+
+theorem mkItem_ends {p q : P K} {e : Bool} {tri : Nat} {it : Item K} (h : mkItem p q e tri = some it) :
+    (it.a = p ∧ it.b = q) ∨ (it.a = q ∧ it.b = p) := by
+  unfold mkItem at h
+  by_cases h1 : p.y < q.y
+  · rw [if_pos h1] at h; cases h; exact Or.inl ⟨rfl, rfl⟩
+  · rw [if_neg h1] at h
+    by_cases h2 : q.y < p.y
+    · rw [if_pos h2] at h; cases h; exact Or.inr ⟨rfl, rfl⟩
+    · rw [if_neg h2] at h; cases h
+
+/-- `y` is the ordinate of a vertex of the outline or of a triangle -/
+def VertexLevel (inp : Input K) (y : K) : Prop :=
+  (∃ e ∈ inp.edges, y = e.1.y ∨ y = e.2.y) ∨ (∃ t ∈ inp.tris, y = t.1.y ∨ y = t.2.1.y ∨ y = t.2.2.y)
+
+theorem mem_checkExtra (inp : Input K) (y : K) : y ∈ checkExtra inp ↔ VertexLevel inp y := by
+  unfold checkExtra VertexLevel
+  simp only [List.mem_append, List.mem_flatMap, List.mem_cons, List.mem_nil_iff, or_false]
+
+theorem ends_vertexLevel {inp : Input K} {it : Item K} (h : it ∈ checkItems inp) :
+    VertexLevel inp it.a.y ∧ VertexLevel inp it.b.y := by
+  unfold checkItems at h
+  rcases List.mem_append.mp h with h | h
+  · unfold edgeItems at h
+    obtain ⟨e, he, hm⟩ := List.mem_filterMap.mp h
+    rcases mkItem_ends hm with ⟨ha, hb⟩ | ⟨ha, hb⟩
+    · exact ⟨Or.inl ⟨e, he, Or.inl (by rw [ha])⟩, Or.inl ⟨e, he, Or.inr (by rw [hb])⟩⟩
+    · exact ⟨Or.inl ⟨e, he, Or.inr (by rw [ha])⟩, Or.inl ⟨e, he, Or.inl (by rw [hb])⟩⟩
+  · rw [triItems_eq] at h
+    obtain ⟨ti, hti, hit⟩ := List.mem_flatMap.mp h
+    have ht : ti.1 ∈ inp.tris := by
+      have := (List.mem_zipIdx_iff_getElem?.mp hti)
+      exact List.mem_of_getElem? this
+    unfold triOf at hit
+    obtain ⟨o, ho, he⟩ := List.mem_filterMap.mp hit
+    simp only [id] at he
+    subst he
+    simp only [List.mem_cons, List.mem_nil_iff, or_false] at ho
+    rcases ho with ho | ho | ho <;> rcases mkItem_ends ho.symm with ⟨ha, hb⟩ | ⟨ha, hb⟩ <;>
+      refine ⟨Or.inr ⟨ti.1, ht, ?_⟩, Or.inr ⟨ti.1, ht, ?_⟩⟩ <;> rw [ha] <;> try rw [hb]
+    all_goals first
+      | exact Or.inl rfl
+      | exact Or.inr (Or.inl rfl)
+      | exact Or.inr (Or.inr rfl)
+      | skip
+    all_goals first
+      | (rw [hb]; first | exact Or.inl rfl | exact Or.inr (Or.inl rfl) | exact Or.inr (Or.inr rfl))
+
+theorem exists_of_mem_allCrossings : ∀ (l : List (Item K)) (y : K), y ∈ allCrossings l →
+    ∃ i ∈ l, ∃ j ∈ l, crossY i j = some y
+  | [], y, h => by simp [allCrossings] at h
+  | a :: t, y, h => by
+    rw [allCrossings, List.mem_append] at h
+    rcases h with h | h
+    · obtain ⟨j, hj, hc⟩ := List.mem_filterMap.mp h
+      exact ⟨a, by simp, j, List.mem_cons_of_mem _ hj, hc⟩
+    · obtain ⟨i, hi, j, hj, hc⟩ := exists_of_mem_allCrossings t y h
+      exact ⟨i, List.mem_cons_of_mem _ hi, j, List.mem_cons_of_mem _ hj, hc⟩
+
+/-- **The cut ordinates are exactly what `Generic` is documented to exclude**: an ordinate is a cut
+ordinate only if it is the ordinate of a vertex of the outline or of a triangle, or the ordinate
+at which the supporting lines of two segments cross (inside both segments' y-ranges). -/
+theorem mem_ordinates_only (inp : Input K) (y : K)
+    (h : y ∈ ordinates (checkItems inp) (checkExtra inp)) :
+    VertexLevel inp y ∨ ∃ i ∈ checkItems inp, ∃ j ∈ checkItems inp, crossY i j = some y := by
+  rw [mem_ordinates] at h
+  unfold rawOrdinates at h
+  rcases List.mem_append.mp h with h | h
+  · rcases List.mem_append.mp h with h | h
+    · obtain ⟨it, hit, hy⟩ := List.mem_flatMap.mp h
+      simp only [List.mem_cons, List.mem_nil_iff, or_false] at hy
+      rcases hy with rfl | rfl
+      · exact Or.inl (ends_vertexLevel hit).1
+      · exact Or.inl (ends_vertexLevel hit).2
+    · exact Or.inl ((mem_checkExtra inp y).mp h)
+  · exact Or.inr (exists_of_mem_allCrossings _ y h)
+
+/-- a sufficient condition for `Generic` in elementary terms -/
+theorem generic_of (inp : Input K) (q : P K) (hV : ¬ VertexLevel inp q.y)
+    (hX : ∀ i ∈ checkItems inp, ∀ j ∈ checkItems inp, crossY i j ≠ some q.y)
+    (hoff : ∀ it ∈ checkItems inp, it.a.y ≤ q.y → q.y < it.b.y → it.xAt q.y ≠ q.x) : Generic inp q := by
+  refine ⟨fun h => ?_, hoff⟩
+  rcases mem_ordinates_only inp q.y h with h | ⟨i, hi, j, hj, hc⟩
+  · exact hV h
+  · exact hX i hi j hj hc
+
+/-- every vertex ordinate is a cut ordinate (so a generic point is level with no vertex) -/
+theorem generic_not_vertexLevel (inp : Input K) (q : P K) (h : Generic inp q) : ¬ VertexLevel inp q.y := by
+  intro hv
+  apply h.level
+  rw [mem_ordinates]
+  unfold rawOrdinates
+  exact List.mem_append_left _ (List.mem_append_right _ ((mem_checkExtra inp q.y).mpr hv))
+
+/-! ### the executable instance -/
+
+/-- **The rational instance the executables run is the field instance at `ℚ`**: `check` as
+compiled into `model_c01` … (`Model/RatScalar.lean`) is the function `check_sound` speaks about. -/
+theorem ratScalar_eq_fieldScalar : (instScalarRat : Scalar ℚ) = fieldScalar := by
+  unfold instScalarRat fieldScalar
+  congr
+  funext a
+  split_ifs with h
+  · exact (abs_of_neg h).symm
+  · exact (abs_of_nonneg (not_lt.mp h)).symm
+
+/-- `check_sound` for the executable checker on rationals -/
+theorem check_sound_rat (inp : Input ℚ) (hok : (@check ℚ instScalarRat inp).fails = []) (q : P ℚ)
+    (hgen : Generic inp q) :
+    inp.mode.holds inp.rule (winding inp.edges q) (coverage inp.tris q) = true ∨ InBand inp q := by
+  rw [ratScalar_eq_fieldScalar] at hok
+  exact check_sound inp hok q hgen
+
+/-! ### non-vacuity: a concrete input that passes, evaluated inside the logic -/
+
+section Example
+
+/-- outline = the triangle (0,0) (4,0) (1,3), covered by exactly that triangle -/
+noncomputable def inp0 : Input ℚ :=
+  { edges := [(⟨0, 0⟩, ⟨4, 0⟩), (⟨4, 0⟩, ⟨1, 3⟩), (⟨1, 3⟩, ⟨0, 0⟩)],
+    tris := [(⟨0, 0⟩, ⟨4, 0⟩, ⟨1, 3⟩)], rule := .nonZero, mode := .tiling, d2 := 0 }
+
+noncomputable def e1 : Item ℚ := ⟨⟨4,0⟩, ⟨1,3⟩, 1, 0⟩
+noncomputable def e2 : Item ℚ := ⟨⟨0,0⟩, ⟨1,3⟩, -1, 0⟩
+noncomputable def t1 : Item ℚ := ⟨⟨4,0⟩, ⟨1,3⟩, 0, 1⟩
+noncomputable def t2 : Item ℚ := ⟨⟨0,0⟩, ⟨1,3⟩, 0, 1⟩
+
+theorem items0 : checkItems inp0 = [e1, e2, t1, t2] := by
+  norm_num [List.filterMap_cons, checkItems, inp0, edgeItems, triItems, mkItem, List.zipIdx, e1, e2, t1, t2]
+
+theorem extra0 : checkExtra inp0 = [0, 0, 0, 3, 3, 0, 0, 0, 3] := by
+  simp [checkExtra, inp0]
+
+theorem cross0 : allCrossings [e1, e2, t1, t2] = [3, 3, 3, 3] := by
+  norm_num [List.filterMap_cons, allCrossings, crossY, crossYLines, sc_beq, e1, e2, t1, t2]
+
+
+set_option maxRecDepth 10000 in
+theorem ys0 : ordinates (checkItems inp0) (checkExtra inp0) = [0, 3] := by
+  rw [items0, extra0]
+  unfold ordinates
+  rw [cross0]
+  norm_num [e1, e2, t1, t2, List.mergeSort, List.MergeSort.Internal.splitInTwo, dedupSorted]
+
+theorem two_eq : (Scalar.two : ℚ) = 2 := sc_two
+theorem one_eq : (Scalar.one : ℚ) = 1 := sc_one
+
+theorem sorted0 : slabSorted [e1, e2, t1, t2] 0 3 = [(1/2, e2), (1/2, t2), (5/2, e1), (5/2, t1)] := by
+  norm_num [slabSorted, Item.spans, Item.xAt, e1, e2, t1, t2, List.mergeSort,
+    List.MergeSort.Internal.splitInTwo, List.filter_cons, two_eq, List.merge]
+
+
+theorem sweep0 : (sweepSlab .tiling .nonZero inp0.edges 0 1 [e1, e2, t1, t2] 0 3).1 = [] := by
+  unfold sweepSlab
+  rw [sorted0]
+  norm_num [sweepGo, gapAt, gapOk, Acc.step, Acc.init, toggle, Mode.holds, Rule.isIn, Item.xAt,
+    e1, e2, t1, t2, two_eq]
+
+theorem check0 : (check inp0).fails = [] := by
+  unfold check
+  simp only []
+  rw [ys0, items0]
+  simp only [slabPairs, List.foldl_cons, List.foldl_nil]
+  have := sweep0
+  simp only [inp0, List.length_cons, List.length_nil] at this ⊢
+  rw [this]
+  rfl
+
+
+/-- the point (1,1) is generic for `inp0` -/
+theorem generic0 : Generic inp0 ⟨1, 1⟩ := by
+  refine ⟨?_, ?_⟩
+  · rw [ys0]; norm_num
+  · rw [items0]
+    intro it hit
+    simp only [List.mem_cons, List.mem_nil_iff, or_false] at hit
+    rcases hit with rfl | rfl | rfl | rfl <;> norm_num [Item.xAt, e1, e2, t1, t2]
+
+/-- hypotheses of `check_sound` are satisfiable, and its conclusion at (1,1) -/
+example : inp0.mode.holds inp0.rule (winding inp0.edges ⟨1, 1⟩) (coverage inp0.tris ⟨1, 1⟩) = true
+    ∨ InBand inp0 ⟨1, 1⟩ := check_sound inp0 check0 _ generic0
+
+end Example
+
 end Lyon.Slab
